@@ -65,6 +65,7 @@ type TB struct {
 	fresh  int
 	ufs    map[string]string // uninterpreted function declarations: name -> "(args) ret"
 	ufsOrd []string
+	defNames []string
 	defs   []string // raw SMT definitions (define-fun-rec, axioms as text) emitted in every query
 	True   *Term
 	False  *Term
@@ -577,6 +578,17 @@ func (tb *TB) DeclareUF(name string, args []Sort, ret Sort) {
 	tb.ufs[name] = "(" + strings.Join(as, " ") + ") " + string(ret)
 	tb.ufsOrd = append(tb.ufsOrd, name)
 }
+// AddDef registers a raw SMT-LIB definition once.
+func (tb *TB) AddDef(name, def string) {
+	for _, d := range tb.defNames {
+		if d == name {
+			return
+		}
+	}
+	tb.defNames = append(tb.defNames, name)
+	tb.defs = append(tb.defs, def)
+}
+
 func (tb *TB) App(name string, ret Sort, args ...*Term) *Term {
 	return tb.mk("app", sanitize(name), ret, args...)
 }
